@@ -135,8 +135,9 @@ def snap_variables(v, ids):
 def snap_rule(r, ids, depth=0):
     cu = cssutils_mod()
     t = r.type
+    # `_keyword` = the at-keyword as written: serialised when cssutils.ser.prefs.defaultAtKeyword is False (serialize.py:355)
     base = ('Rule', type(r).__name__, ids(r), t, _text(r, 'cssText'), r.wellformed, getattr(r, 'atkeyword', None),
-            ids(r.parentRule), ids(r.parentStyleSheet))
+            ids(r.parentRule), ids(r.parentStyleSheet), getattr(r, '_keyword', None))
     extra = []
     if t == r.STYLE_RULE:
         extra = [snap_selectorlist(r.selectorList, ids), snap_style(r.style, ids), _text(r, 'selectorText')]
